@@ -71,22 +71,19 @@ func c12IsFailure(c *Ctx) {
 			if match != nil {
 				M = F.Truth(ts, match)
 			}
-			// spec: N ⇒ E ; ¬N∧M ⇒ true ; ¬N∧¬M ⇒ E∧¬C
+			// spec: N ⇒ E ; ¬N ⇒ M ∨ (E∧¬C)   (three-valued: a row whose unknowns cannot change the outcome is decided)
+			wantN, wantC := E, triOr(M, triAnd(E, C.not()))
 			var want tri
 			switch N {
 			case triT:
-				want = E
+				want = wantN
 			case triF:
-				switch M {
-				case triT:
-					want = triT
-				case triF:
-					want = triAnd(E, C.not())
-				default:
-					want = triU
-				}
+				want = wantC
 			default:
 				want = triU
+				if wantN == wantC {
+					want = wantN
+				}
 			}
 			got := F.Truth(ts, p.Rets[0])
 			if want == triU || got != want {
